@@ -17,6 +17,10 @@ pub struct Case {
 
 const TOL: f64 = 1e-6;
 
+thread_local! {
+    static RING: std::cell::RefCell<Vec<(f64, f64, f64, f64)>> = std::cell::RefCell::new(Vec::new());
+}
+
 pub fn check(_ctx: &Ctx, st: &mut Stats, c: &Case) {
     let (lat, lon) = (c.lat.0, c.lon.0);
     let dk = o::ang_dist(lat, lon, o::KAABA_LAT, o::KAABA_LON);
@@ -49,6 +53,31 @@ pub fn check(_ctx: &Ctx, st: &mut Stats, c: &Case) {
                 st.violate("result_depends_on_call_history", c, json!({"in_sequence": deg, "first_call_on_fresh_thread": fd}));
             }
         }
+    }
+    // revisit probe: a place requested some hundreds of requests ago, requested again now (A, B, ..., A)
+    RING.with(|ring| {
+        let mut ring = ring.borrow_mut();
+        if ring.len() >= 400 {
+            let k = (st.decided as usize * 7919) % 390;
+            let (pla, plo, pel, pdeg) = ring[k];
+            if let Ok(again) = guarded(|| Qibla::new(Coordinates::new(Latitude::try_from(pla).unwrap(), Longitude::try_from(plo).unwrap(), Elevation::try_from(pel).unwrap())).degrees()) {
+                if again.to_bits() != pdeg.to_bits() {
+                    st.violate("result_depends_on_call_history", &Case { lat: X(pla), lon: X(plo), elev: X(pel), elev2: X(pel) }, json!({"first": pdeg, "revisited_later": again}));
+                }
+            }
+            ring.remove(k);
+            if st.decided % 32 == 0 {
+                st.count("history_probe.revisits");
+            }
+        }
+        ring.push((lat, lon, c.elev.0, deg));
+    });
+    if st.decided % 5003 == 0 {
+        // fault injection: the poles themselves (valid Coordinates, outside the property's open interval), caught
+        for pl in [90.0, -90.0] {
+            let _ = guarded(|| Qibla::new(Coordinates::new(Latitude::try_from(pl).unwrap(), Longitude::try_from(lon).unwrap(), Elevation::try_from(0.0).unwrap())).to_string());
+        }
+        st.count("fault_injection.out_of_domain_call_groups");
     }
     let want = o::qibla_bearing(lat, lon);
     // compare on the circle (a bearing of 179.9999999 vs -179.9999999 is the same direction)
